@@ -369,6 +369,10 @@ package transaction
 //@   may-panic
 //@   opaque-callee pessimisticRollbackMutations NewBackofferWithVars
 //@   at call(pessimisticRollbackMutations) assert exactly: arg_mutations.(*PlainMutations).keys == keys && recv == committer
+// ... and it runs detached from the caller's cancellation (finding F20, fixed): its back-off context is
+// context.WithoutCancel of the context the lock call was given - the values (request source, interceptors) stay, a
+// cancellation by the caller after LockKeys has returned does not abort the rollback and leave the locks behind.
+//@   at call(NewBackofferWithVars) assert detached: arg_ctx == context.detachedOf(ctx)
 
 // Ghost bookkeeping of lock calls: LockCtx.debt - the last pessimistic lock request made with this lock context failed in
 // a way that can leave locks in the store: it named several keys (some may have been locked before another failed), or
